@@ -36,6 +36,9 @@ use crate::rnd::StrandRng;
 use crate::serialization::{StrandDeserialize, StrandSerialize};
 use crate::util::StrandError;
 
+#[cfg(strand_verif)]
+pub mod verif;
+
 pub trait SerializeNumber {
     fn to_str_radix(&self, radix: u32) -> String;
 }
@@ -196,6 +199,12 @@ impl<P: BigintCtxParams> Ctx for BigintCtx<P> {
 
     #[inline(always)]
     fn rnd(&self) -> Self::E {
+        #[cfg(strand_verif)]
+        {
+            if let Some(b) = crate::verif_hooks::take_exp_bytes() {
+                return BigUintE::new(BigUint::from_bytes_be(&b));
+            }
+        }
         let mut gen = StrandRng;
         let one: BigUint = One::one();
         let unencoded = BigUintP(
@@ -207,6 +216,12 @@ impl<P: BigintCtxParams> Ctx for BigintCtx<P> {
     }
     #[inline(always)]
     fn rnd_exp(&self) -> Self::X {
+        #[cfg(strand_verif)]
+        {
+            if let Some(b) = crate::verif_hooks::take_exp_bytes() {
+                return BigUintX::new(BigUint::from_bytes_be(&b));
+            }
+        }
         let mut gen = StrandRng;
         BigUintX::new(gen.gen_biguint_below(&self.params.exp_modulus().0))
     }
